@@ -80,6 +80,9 @@ func (s *State) LoadDevice(
 	var rawConf rawConfig
 	var resultStruct struct{ Results []struct{ Id string } }
 	err = json.Unmarshal(data, &resultStruct)
+	if err == nil {
+		err = checkNoError(data)
+	}
 	if err != nil {
 		return nil, fmt.Errorf("while parsing %s: %w", path, err)
 	}
@@ -134,6 +137,9 @@ func (s *State) getRawJSON(path string) ([]json.RawMessage, error) {
 			return nil, err
 		}
 		err = json.Unmarshal(out, &results)
+		if err == nil {
+			err = checkNoError(out)
+		}
 		if err != nil {
 			return nil, fmt.Errorf("while parsing %s: %w", path, err)
 		}
@@ -152,6 +158,24 @@ func (s *State) getRawJSON(path string) ([]json.RawMessage, error) {
 		}
 	}
 	return data, nil
+}
+
+// A list of results must not be an error document.
+// NSX reports a failed request as JSON object with attributes
+// "error_code" and "error_message".
+// Reject such a document even if it arrives with status code 200,
+// because it would be taken as empty list otherwise.
+func checkNoError(data []byte) error {
+	var e struct {
+		Code    json.RawMessage `json:"error_code"`
+		Message string          `json:"error_message"`
+	}
+	json.Unmarshal(data, &e)
+	if len(e.Code) != 0 || e.Message != "" {
+		return fmt.Errorf("got error message instead of results: %s (%s)",
+			e.Message, e.Code)
+	}
+	return nil
 }
 
 func (s *State) sendRequest(method string, path string, body io.Reader) ([]byte, error) {
